@@ -186,6 +186,8 @@ pub fn main(o: &Opts) -> Result<i32, String> {
     let mut distinct_names: BTreeMap<String, usize> = BTreeMap::new();
     let mut distinct_cases: std::collections::HashSet<String> = std::collections::HashSet::new();
     let mut enc_ops = 0usize;
+    let mut sig_count: HashMap<String, usize> = HashMap::new();
+    let mut viol_total = 0usize;
     std::fs::create_dir_all(format!("{replay_dir}/{prop}")).ok();
     for (j, out) in &results {
         let job = &jobs[*j];
@@ -209,8 +211,13 @@ pub fn main(o: &Opts) -> Result<i32, String> {
                            "observed": detail, "cause": ""}));
         }
         for v in vs {
-            if viols.len() >= max_viol {
-                break;
+            viol_total += 1;
+            // keep at most 2 replay files per distinct signature (call, observable, cause label)
+            let sig = format!("{}|{}|{}", v["op"], v["what"], v["cause"]);
+            let c = sig_count.entry(sig).or_default();
+            *c += 1;
+            if *c > 2 || viols.len() >= max_viol {
+                continue;
             }
             let rec = violation_record(&prop, scn, &job.inst, &v);
             let body = serde_json::to_vec(&rec).unwrap();
@@ -242,7 +249,7 @@ pub fn main(o: &Opts) -> Result<i32, String> {
         "prop": prop, "scenarios": scns.len(), "instances": jobs.len(), "steps": steps, "calls": calls,
         "distinct_cases": distinct_cases.len(), "distinct_names": distinct_names.len(),
         "slack_diverged": slack, "scenarios_without_names": no_names, "encrypt_ops_observed": enc_ops,
-        "tool_errors": tool_errors, "violations": viols, "samples": samples,
+        "tool_errors": tool_errors, "violations": viols, "violations_total": viol_total, "samples": samples,
     });
     if let Some(p) = o.get("result") {
         std::fs::write(p, serde_json::to_vec_pretty(&res).unwrap()).map_err(|e| e.to_string())?;
